@@ -241,7 +241,7 @@ func init() {
 		if cc.Thorough() {
 			maxL = 4
 		}
-		alphabet := "aZ_-,\"\\ 1.$é"[:11] // ASCII only
+		alphabet := "aZ_-,\"\\ 1.$'!@~{:=" // ASCII: letters, digits, allowed and reserved punctuation
 		suffixes := []string{"", ",", ",omitempty", ",omitzero", ",omitempty,omitzero", ",string", ",omitempty,", ",,omitzero", ", omitempty", ",omitemptyx", ",Omitempty", "-", "-,"}
 		var cases []*TagCase
 		for n := 0; n <= maxL; n++ {
@@ -268,7 +268,7 @@ func init() {
 		cc.RunForSharedFamily(r)
 		// scaffold (concrete, native): fresh tree per call, equal results, Resolve accepts, cycle error
 		runForScaffold(cc, r)
-		r.Bounds = append(r.Bounds, fmt.Sprintf("tag value = symbolic prefix of length <= %d over {a,Z,_,-,comma,double quote,backslash,space,1,.,$} followed by one of %d concrete option suffixes; fieldJSONInfo (real SSA) vs encoding/json's parseTag/isValidTag/tagOptions.Contains (real SSA of the standard library) composed as in encoding/json's typeFields; every path's tag class is also replayed against the real encoding/json via reflect.StructOf + json.Marshal", maxL, len(suffixes)))
+		r.Bounds = append(r.Bounds, fmt.Sprintf("tag value = symbolic prefix of length <= %d over {a,Z,_,-,comma,double quote,backslash,space,1,.,$,single quote,!,@,~,{,:,=} followed by one of %d concrete option suffixes; fieldJSONInfo (real SSA) vs encoding/json's parseTag/isValidTag/tagOptions.Contains (real SSA of the standard library) composed as in encoding/json's typeFields; every path's tag class is also replayed against the real encoding/json via reflect.StructOf + json.Marshal", maxL, len(suffixes)))
 		r.Outside = append(r.Outside, "clauses that quantify over Go types only (fresh tree per call, cloning of TypeSchemas, cycle detection, IgnoreInvalidTypes pruning, field order): types are declared programs, there is no symbolic input; they are exercised concretely as scaffold over the declared type family and reported, not solver-decided")
 	}
 }
